@@ -828,6 +828,9 @@ func ruleLookupOrder(w *World, r *Report, e *Engine) {
 	r.floor("C01.lookup-order", "ascents to the outer scope", n, 2)
 	// looking a name up changes no scope
 	setTotalRule(w, r, e, "C01.set-total")
+	// "evaluation stops at the first form that fails": a builtin or evaluator function that has bound the error of
+	// a callee answers success only behind the test that found it nil
+	droppedErrorRule(w, r, "C01.errors-surface")
 	if mm := newEvalModel(w, e); mm.ok {
 		expansionOnlyRule(w, r, mm, "C01.expansion-only")
 	}
@@ -2101,7 +2104,13 @@ func (m *evalModel) isOperand(v ssa.Value, idx int) bool {
 		var out []ssa.Value
 		for _, lf := range m.e.producers(v, map[ssa.Value]bool{}, 0) {
 			if p, ok := lf.(*ssa.Parameter); ok && depth < 4 {
-				if args := m.argsFor(p); len(args) > 0 {
+				args := m.argsFor(p)
+				if len(args) == 0 && p.Parent() != m.EVAL && p.Parent().Pkg == m.EVAL.Pkg && p.Parent().Object() != nil && !p.Parent().Object().Exported() {
+					// a function of the package that is no evaluation helper (it builds a value from parts of
+					// the form): what its call sites hand over
+					args = m.w.callSiteArgs(p)
+				}
+				if len(args) > 0 {
 					for _, a := range args {
 						out = append(out, leaves(a, depth+1)...)
 					}
